@@ -22,8 +22,10 @@ import Bng.Model.KeyEnc
     new                                                   => ok
     put <map> <keyType> <valType> k=<leaf,…> v=<leaf,…>   => k=<hex> v=<hex> | err size-key | err size-value
     get <map> <keyType> <valType> rawk=<hex> rawv=<hex>   => v=<leaf,…> | err size-key | err size-value
+    iter <map> <keyType> <valType> rawk=<hex> rawv=<hex>  => k=<leaf,…> v=<leaf,…> del=ok|notfound left=<n> | err size-key | err size-value
     percpu nat|qos|antispoof                              => err percpu | ok
-    x qos|antispoof|dhcp|nat|fnv|wg name=value …          => name=hex …
+    x qos|antispoof|dhcp|nat|purge|fnv|wg name=value …    => name=hex …
+                                                          (`x antispoof … form=16`: the network address handed to AddAllowedRange in 16-byte form; same model)
     kf cidraw <options hex>                               => c=<hex|none>
     kf cid <cid hex> <extra>                              => go=<MakeCircuitIDKey> c=<key the program looks up|none>
     kf mac <6B>                                           => go=<MACToUint64 LE> c.dhcp=<…> c.antispoof=<…>
@@ -154,6 +156,49 @@ def doGet (toks : List String) (impl : String) : LineResult :=
             | some (_, g, c, w) => [(if w == "offset" || w == "count" then "offset" else "width", "none",
                 s!"{tuple} value-field go:{g} c:{c} {w} raw={hexOf rv} go-reads:{impl} c-wrote:{want}")]
             | none => [("size", "none", s!"{tuple} raw={hexOf rv} go-reads:{impl} c-wrote:{want}")]
+        { modelObs := model, viols := viols }
+    | _, _, _ => { modelObs := "badop" }
+  | _ => { modelObs := "badop" }
+
+/-- `iter <map> <keyType> <valType> rawk= rawv=`: the entry read with `MapIterator.Next(&k, &v)` — typed key AND value — and
+    the key handed back to `Delete` (the pattern of `purgeSubscriberState`).  Model: the generated Go layouts decode the
+    raw bytes; a key whose padding is zero (the programs zero it) re-marshals to the same bytes, so the Delete hits.
+    Property: Go reads out of the bytes what a reader using the C record reads, and deletes the entry it was shown. -/
+def doIter (toks : List String) (impl : String) : LineResult :=
+  match toks with
+  | [_, m, kt, vt, ka, va] =>
+    match findUse m kt vt, parseHexBytes ((ka.splitOn "=").getD 1 ""), parseHexBytes ((va.splitOn "=").getD 1 "") with
+    | some u, some rk, some rv =>
+      match u.goVal with
+      | none => { modelObs := "badop" }
+      | some gv =>
+        if u.mapType != "HASH" && u.mapType != "LRU_HASH" then { modelObs := "badop maptype" } else
+        let kLeaves := (List.range (named u.goKey.fields).length).map fun i => readField u.goKey i rk
+        if image u.goKey kLeaves != rk then { modelObs := "badop padding" } else
+        let model :=
+          if u.goKey.size != u.cKeySize then "err size-key"
+          else if gv.size != u.cValSize then "err size-value"
+          else s!"k={leafStrings u.goKey rk} v={leafStrings gv rv} del=ok left=0"
+        let wantK := leafStrings u.cKey rk
+        let wantV := leafStrings u.cVal rv
+        let tuple := s!"map={m} (iteration) go=({kt},{vt}) c=({u.cKey.name},{u.cVal.name})"
+        let viols : List Verdict :=
+          if impl.startsWith "err size" then
+            [("size", "none", s!"{tuple} go-sizes=({u.goKey.size},{gv.size}) map-sizes=({u.cKeySize},{u.cValSize}) cilium:{impl}")]
+          else if !impl.startsWith "k=" then []
+          else
+            (if tok impl "k" == wantK then [] else
+              match firstDisagreement 0 (named u.goKey.fields) (named u.cKey.fields) with
+              | some (_, g, c, w) => [((if w == "offset" || w == "count" then "offset" else "width", "none",
+                  s!"{tuple} key-field go:{g} c:{c} {w} raw={hexOf rk} go-reads:k={tok impl "k"} c-wrote:k={wantK}") : Verdict)]
+              | none => [("size", "none", s!"{tuple} raw={hexOf rk} go-reads:k={tok impl "k"} c-wrote:k={wantK}")]) ++
+            (if tok impl "v" == wantV then [] else
+              match firstDisagreement 0 (named gv.fields) (named u.cVal.fields) with
+              | some (_, g, c, w) => [((if w == "offset" || w == "count" then "offset" else "width", "none",
+                  s!"{tuple} value-field go:{g} c:{c} {w} raw={hexOf rv} go-reads:v={tok impl "v"} c-wrote:v={wantV}") : Verdict)]
+              | none => [("size", "none", s!"{tuple} raw={hexOf rv} go-reads:v={tok impl "v"} c-wrote:v={wantV}")]) ++
+            (if tok impl "del" == "ok" && tok impl "left" == "0" then [] else
+              [("key", "none", s!"{tuple} the key Go hands back to Delete is not the key the program wrote ({hexOf rk}): del={tok impl "del"} left={tok impl "left"}")])
         { modelObs := model, viols := viols }
     | _, _, _ => { modelObs := "badop" }
   | _ => { modelObs := "badop" }
@@ -494,6 +539,86 @@ def xNat (a : List (String × String)) (impl : String) : LineResult :=
         rdPort "eim_table" "external_port" "rde.external_port" wirePort }
   | _, _, _, _, _, _ => { modelObs := "badop" }
 
+/-- `x purge priv= src= bsrc= pub= dst= sport= dport= proto=`: the real `DeallocateNAT(priv)` → `purgeSubscriberState` on
+    real maps holding the session / reverse entry / EIM mapping the natively compiled nat44_egress created for a flow
+    whose WIRE source is `src`, and those of a bystander subscriber `bsrc`.
+    Model: the keys the program builds (convention tables `ipFields`, `portFields`, `carriedLeaves`), what the generated
+    Go layouts decode from them, and `KeyEnc.purgeSelects` for what is deleted.
+    Property: Go reads the entries as the program wrote them (layout), and releasing subscriber `priv` removes the
+    entries of the flows from `priv` and no others. -/
+def xPurge (a : List (String × String)) (impl : String) : LineResult :=
+  let ipOf := fun k => (argBytes a k).bind ip4
+  match ipOf "priv", ipOf "src", ipOf "bsrc", ipOf "pub", ipOf "dst", (arg a "sport").toNat?, (arg a "dport").toNat?, (arg a "proto").toNat? with
+  | some (p0, p1, p2, p3), some (s0, s1, s2, s3), some (b0, b1, b2, b3), some (u0, u1, u2, u3), some (d0, d1, d2, d3),
+      some sport, some dport, some proto =>
+    let priv := [p0, p1, p2, p3]
+    let src := [s0, s1, s2, s3]
+    let bsrc := [b0, b1, b2, b3]
+    if bsrc == priv || bsrc == src then { modelObs := "badop" } else
+    if !isPrivateWire s0 s1 || !isPrivateWire b0 b1 then { modelObs := "nosession a=0 b=0" } else
+    let allocPort := 1024   -- `priv` is the first allocation of a fresh manager: first block, first port
+    let tail := [UInt8.ofNat proto, 0, 0, 0]
+    let goSub := ipGo "subscriber_nat" "key" "" p0 p1 p2 p3
+    let cSub := ipC "subscriber_nat" "key" "" s0 s1 s2 s3
+    let cSess := ipC "nat_sessions" "key" "src_ip" s0 s1 s2 s3 ++ ipC "nat_sessions" "key" "dst_ip" d0 d1 d2 d3 ++
+      portC "nat_sessions" "key" "src_port" sport ++ portC "nat_sessions" "key" "dst_port" dport ++ tail
+    let cRevK := carriedIpC "nat_reverse" "key" "src_ip" d0 d1 d2 d3 ++ carriedIpC "nat_reverse" "key" "dst_ip" u0 u1 u2 u3 ++
+      carriedPortC "nat_reverse" "key" "src_port" dport ++ carriedPortC "nat_reverse" "key" "dst_port" allocPort ++ tail
+    let cRevV := ipC "nat_reverse" "value" "src_ip" s0 s1 s2 s3 ++ carriedIpC "nat_reverse" "value" "dst_ip" d0 d1 d2 d3 ++
+      carriedPortC "nat_reverse" "value" "src_port" sport ++ carriedPortC "nat_reverse" "value" "dst_port" dport ++ tail
+    let cEim := ipC "eim_table" "key" "internal_ip" s0 s1 s2 s3 ++ portC "eim_table" "key" "internal_port" sport ++
+      [UInt8.ofNat proto, 0]
+    match findUse "nat_sessions" "nat.natSessionKey" "nat.NATSession", findUse "nat_reverse" "nat.natSessionKey" "nat.natSessionKey",
+        findUse "eim_table" "nat.EIMKey" "nat.EIMMapping" with
+    | some uS, some uR, some uE =>
+      let goV := fun (u : MapUse) => u.goVal.getD u.goKey
+      let sel := fun (stored : List UInt8) => purgeSelects p0 p1 p2 p3 (stored.take 4)
+      let yes := fun (b : Bool) => if b then "yes" else "no"
+      let kept := fun (b : Bool) => if b then "gone" else "kept"
+      let bSel := sel (ipC "nat_sessions" "key" "src_ip" b0 b1 b2 b3)
+      let bSelR := sel (ipC "nat_reverse" "value" "src_ip" b0 b1 b2 b3)
+      let bSelE := sel (ipC "eim_table" "key" "internal_ip" b0 b1 b2 b3)
+      let model := s!"go.sub.k={hexOf goSub} c.sub.k={hexOf cSub} c.sess.k={hexOf cSess} c.rev.k={hexOf cRevK} c.rev.v={hexOf cRevV} " ++
+        s!"c.eim.k={hexOf cEim} it.sess.k={leafStrings uS.goKey cSess} it.rev.k={leafStrings uR.goKey cRevK} " ++
+        s!"it.rev.v={leafStrings (goV uR) cRevV} it.eim.k={leafStrings uE.goKey cEim} dealloc=ok " ++
+        s!"gone.sess={yes (sel cSess)} gone.rev={yes (sel cRevV)} gone.eim={yes (sel cEim)} " ++
+        s!"by.sess={kept bSel} by.rev={kept bSelR} by.eim={kept bSelE}"
+      -- (a) layout: what Go's typed iteration decoded from the bytes the program wrote = what the C record says is there
+      let readCheck := fun (what : String) (g c : Struct) (rawTok itTok : String) =>
+        let raw := tokBytes impl rawTok
+        let want := leafStrings c raw
+        if tok impl itTok == want then ([] : List Verdict) else
+          match firstDisagreement 0 (named g.fields) (named c.fields) with
+          | some (_, gf, cf, w) => [(if w == "offset" || w == "count" then "offset" else "width", "none",
+              s!"purge-iteration:{what} go={g.name} c={c.name} field go:{gf} c:{cf} {w} program-wrote={hexOf raw} go-reads:{tok impl itTok} c-record:{want}")]
+          | none => [("size", "none", s!"purge-iteration:{what} go={g.name} c={c.name} program-wrote={hexOf raw} go-reads:{tok impl itTok} c-record:{want}")]
+      -- (b) releasing `priv` must remove the entries of the flows from `priv` (as the program stores that address) and no others
+      let got := tokBytes impl "go.sub.k"
+      let own := src == priv
+      let rel := fun (m side leaf goneTok : String) =>
+        let removed := tok impl goneTok == "yes"
+        if removed == own then ([] : List Verdict) else
+          [(if got == priv.reverse then "byteorder" else "key", d10Clause m side leaf got priv,
+            s!"purge:({m},{side},{leaf}) DeallocateNAT({hexOf priv}) compares the leaf with {hexOf got}; the program stores {hexOf priv} for that subscriber; " ++
+            (if own then s!"the subscriber's own entry (wire source {hexOf src}) is left behind"
+             else s!"the entry of the flow from {hexOf src} is removed instead"))]
+      let bys := fun (m side leaf byTok : String) =>
+        if tok impl byTok != "gone" then ([] : List Verdict) else
+          [(if got == priv.reverse then "byteorder" else "key", d10Clause m side leaf got priv,
+            s!"purge:({m},{side},{leaf}) DeallocateNAT({hexOf priv}) compares the leaf with {hexOf got} and removed the entry of the bystander flow from {hexOf bsrc}")]
+      { modelObs := model,
+        viols :=
+          readCheck "nat_sessions.key" uS.goKey uS.cKey "c.sess.k" "it.sess.k" ++
+          readCheck "nat_reverse.key" uR.goKey uR.cKey "c.rev.k" "it.rev.k" ++
+          readCheck "nat_reverse.value" (goV uR) uR.cVal "c.rev.v" "it.rev.v" ++
+          readCheck "eim_table.key" uE.goKey uE.cKey "c.eim.k" "it.eim.k" ++
+          rel "nat_sessions" "key" "src_ip" "gone.sess" ++ rel "nat_reverse" "value" "src_ip" "gone.rev" ++
+          rel "eim_table" "key" "internal_ip" "gone.eim" ++
+          bys "nat_sessions" "key" "src_ip" "by.sess" ++ bys "nat_reverse" "value" "src_ip" "by.rev" ++
+          bys "eim_table" "key" "internal_ip" "by.eim" }
+    | _, _, _ => { modelObs := "badop no-purge-use-in-the-generated-table" }
+  | _, _, _, _, _, _, _, _ => { modelObs := "badop" }
+
 def xFnv (a : List (String × String)) : LineResult :=
   match argBytes a "cid", (argBytes a "mac").bind mac6 with
   | some cid, some (m0, m1, m2, m3, m4, m5) =>
@@ -642,6 +767,7 @@ def step (st : Unit) (toks : List String) (impl : String) : Unit × LineResult :
     | ["new"] => { modelObs := "ok" }
     | "put" :: _ => doPut toks impl
     | "get" :: _ => doGet toks impl
+    | "iter" :: _ => doIter toks impl
     | "percpu" :: _ => doPercpu toks impl
     | "pget" :: _ => doPget toks impl
     | "nput" :: _ => doNput toks impl
@@ -650,6 +776,7 @@ def step (st : Unit) (toks : List String) (impl : String) : Unit × LineResult :
     | "x" :: "antispoof" :: rest => apiFailure (xAntispoof (kvOf rest) impl) impl
     | "x" :: "dhcp" :: rest => apiFailure (xDhcp (kvOf rest) impl) impl
     | "x" :: "nat" :: rest => apiFailure (xNat (kvOf rest) impl) impl
+    | "x" :: "purge" :: rest => apiFailure (xPurge (kvOf rest) impl) impl
     | "x" :: "fnv" :: rest =>
       let r := xFnv (kvOf rest)
       { r with viols := if impl.startsWith "go." then goVsModel "HashCircuitID/MACToUint64 (circuit_id_map entry)" (" ".intercalate rest) impl r.modelObs else [] }
